@@ -237,9 +237,16 @@ Definition prog_run (n : nat) (p : prog) (w : world) : fres := hb (p_defs p) n (
 Definition scope_tag : str := [60] ++ gen_scope_annotation ++ [62].     (* <scope> *)
 Definition carg_token (a : carg) : str :=
   match a with ALit s => s | AVar v => [36;123] ++ v ++ [125] end.
+Fixpoint fcond_tokens (c : fcond) : list str :=
+  match c with
+  | FCBase c' => FlowTree.cond_tokens c'
+  | FCCall f args => f :: map carg_token args
+  | FCNot c' => FlowTree.s_not :: fcond_tokens c'
+  end.
 Definition frender (i : finstr) : option str * option str * list str :=
   match fi_arg i with
   | FBase a => FlowTree.render (down i)
+  | FCondC c => (None, fi_cmd i, fcond_tokens c)
   | FFn scoped name => (None, fi_cmd i, if scoped then [scope_tag; name] else [name])
   | FCall out args => (out, fi_cmd i, map carg_token args)
   | FReturn a => (None, fi_cmd i, match a with Some x => [carg_token x] | None => [] end)
